@@ -81,6 +81,8 @@ type StepRec struct {
 	CtxIDs  []string // request contexts created by this step (hex)
 	CBs     []CallbackRec
 	ModOuts []ModOutcome // module-service outcomes consumed in this step
+	Subs    []*StepRec   // committed multi-message tx: one record per message (pre/post inside the tx)
+	InTx    bool         // this record is a message of a multi-message tx
 	Height  int64
 	TimeNs  int64
 }
@@ -263,7 +265,7 @@ func panicString(r interface{}) string {
 func (w *World) Step(a Action) *StepRec {
 	rec := &StepRec{Index: w.steps, Action: a, Height: w.Height(), TimeNs: w.TimeNs()}
 	w.steps++
-	rec.Pre = w.Snapshot()
+	rec.Pre = w.SnapshotAt(w.ctx)
 	cbMark, modMark, modIdxMark := len(w.cbs), len(w.modOuts), w.modIdx
 
 	switch {
@@ -283,7 +285,15 @@ func (w *World) Step(a Action) *StepRec {
 	}
 	rec.CBs = append([]CallbackRec{}, w.cbs[cbMark:]...)
 	rec.ModOuts = append([]ModOutcome{}, w.modOuts[modMark:]...)
-	rec.Post = w.Snapshot()
+	rec.Post = w.SnapshotAt(w.ctx)
+	if rec.OK && a.Kind == KTx {
+		// a committed multi-message transaction is a sequence of single-message steps
+		for _, sub := range rec.Subs {
+			sub.Post.Height, sub.Pre.Height = rec.Height, rec.Height
+		}
+	} else {
+		rec.Subs = nil
+	}
 	return rec
 }
 
@@ -340,9 +350,16 @@ func (w *World) runTx(rec *StepRec, msgs []Action) {
 	hash := w.nextTxHash()
 	cctx, write := w.ctx.CacheContext()
 	var evs []abci.Event
+	multi := len(msgs) > 1
 	for i, m := range msgs {
 		mctx := cctx.WithValue(types.TxHash, hash).WithValue(types.MsgIndex, int64(i))
 		var err error
+		var sub *StepRec
+		cbMark, modMark := len(w.cbs), len(w.modOuts)
+		nEv, nCtx := len(evs), len(rec.CtxIDs)
+		if multi {
+			sub = &StepRec{Index: rec.Index, Action: m, InTx: true, Height: rec.Height, TimeNs: rec.TimeNs, Pre: w.SnapshotAt(cctx)}
+		}
 		func() {
 			defer func() {
 				if r := recover(); r != nil {
@@ -370,6 +387,15 @@ func (w *World) runTx(rec *StepRec, msgs []Action) {
 		}
 		if m.Kind == KCall {
 			rec.CtxIDs = append(rec.CtxIDs, hx(types.GenerateRequestContextID(append([]byte{}, hash...), int64(i))))
+		}
+		if multi {
+			sub.OK = true
+			sub.Post = w.SnapshotAt(cctx)
+			sub.Events = append([]abci.Event{}, evs[nEv:]...)
+			sub.CBs = append([]CallbackRec{}, w.cbs[cbMark:]...)
+			sub.ModOuts = append([]ModOutcome{}, w.modOuts[modMark:]...)
+			sub.CtxIDs = append([]string{}, rec.CtxIDs[nCtx:]...)
+			rec.Subs = append(rec.Subs, sub)
 		}
 	}
 	write()
